@@ -1,6 +1,6 @@
 (* Props/C15.v -- pipes. Over R, on the part models. *)
 From Coq Require Import Reals ZArith List.
-From SCAD Require Import Base.Num Base.NumR Base.Vec Text.Chars Text.Tree Parts.Thread Parts.Sem Parts.Parts_proofs.
+From SCAD Require Import Base.Num Base.NumR Base.Vec Base.Mat Text.Chars Text.Tree Parts.Thread Parts.Sem Parts.Parts_proofs.
 Import ListNotations.
 Local Open Scope R_scope.
 
@@ -26,6 +26,29 @@ Theorem C15_bore_is_a_through_hole :
      let dz : R := if center then 0 else - (1 / 1000) in
      z_lo (length + 2 / 1000) center dz < z_lo length center 0 /\ z_hi length center 0 < z_hi (length + 2 / 1000) center dz).
 Proof. exact (conj straight_bore_through tapered_bore_through). Qed.
+
+(* the bore is the stated one: its radius is od/2 - wall_thickness, positive and strictly inside the body *)
+Theorem C15_bore_is_the_stated_one : forall od wall : R, 0 < wall -> 0 < od - wall * 2 ->
+  (od - wall * 2) / 2 = od / 2 - wall /\ 0 < (od - wall * 2) / 2 < od / 2.
+Proof. exact pipe_wall_thickness. Qed.
+
+(* placement semantics (Parts/Sem.v): a straight / tapered pipe places exactly two primitives under one
+   difference -- the body with the given diameters at the identity, and in the subtracted position the bore of
+   diameter od - 2*wall under a pure z translation, hence on the same axis *)
+Theorem C15_bore_is_coaxial :
+  (forall od wall length center fn_, 0 < od - wall * 2 ->
+     option_map (flatten mt4_identity []) (pipe_straight od wall length center fn_) =
+     Some [([(Difference, 0%nat)], mt4_identity,
+            Cylinder length (od / 2) (od / 2) center None None (Some (Z.to_N fn_)));
+           ([(Difference, 1%nat)], mt4_translate_matrix 0 0 (if center then 0 else -1),
+            Cylinder (length + 2) ((od - wall * 2) / 2) ((od - wall * 2) / 2) center None None (Some (Z.to_N fn_)))]) /\
+  (forall od1 od2 wall length center fn_, 0 < od1 - wall * 2 -> 0 < od2 - wall * 2 ->
+     option_map (flatten mt4_identity []) (pipe_tapered od1 od2 wall length center fn_) =
+     Some [([(Difference, 0%nat)], mt4_identity,
+            Cylinder length (od1 / 2) (od2 / 2) center None None (Some (Z.to_N fn_)));
+           ([(Difference, 1%nat)], mt4_translate_matrix 0 0 (if center then 0 else - (1 / 1000)),
+            Cylinder (length + 2 / 1000) ((od1 - wall * 2) / 2) ((od2 - wall * 2) / 2) center None None (Some (Z.to_N fn_)))]).
+Proof. exact (conj pipe_straight_placed pipe_tapered_placed). Qed.
 
 (* curved: same wrapper for hollow and solid; its two translations cancel, so the section starts centred on the origin *)
 Theorem C15_curved :
